@@ -1234,7 +1234,7 @@ class AbsExec:
             n = 0
             while self.truth(self.ev(s.test, env), s.test):
                 n += 1
-                if n > 200:
+                if n > getattr(self, "max_loop", 200):
                     raise AnalysisError(f"{self.qual}:{s.lineno}: loop does not terminate on the abstract store")
                 try:
                     self.block(s.body, env)
